@@ -38,6 +38,8 @@ func main() {
 			usage()
 		}
 		os.Exit(checks.Replay(os.Args[2]))
+	case "exec":
+		os.Exit(checks.ExecDebug(os.Args[2:]))
 	case "c08worker":
 		os.Exit(checks.C08Worker(os.Args[2:]))
 	case "list":
